@@ -767,3 +767,19 @@ Proof.
 Qed.
 
 End Link.
+
+(* ---------- F-C03-2 repaired: the activity hypothesis is vacuous ---------- *)
+
+Section Activity.
+Hypothesis Hact : rec_update_activity_from_store = true.
+
+Lemma valid_event_but_activity_eq st e : valid_event st e = valid_event_but_activity st e.
+Proof. unfold valid_event, activity_ok. rewrite Hact. cbn [orb]. apply andb_true_r. Qed.
+
+Lemma valid_history_but_activity_eq h : forall st, valid_history st h = valid_history_but_activity st h.
+Proof.
+  induction h as [|e h IH]; intros st; [reflexivity|].
+  cbn [valid_history valid_history_but_activity]. rewrite valid_event_but_activity_eq, IH. reflexivity.
+Qed.
+
+End Activity.
